@@ -294,6 +294,7 @@ def pool(R, prog):
 
 
 def run(R, prog, tier):
+    R.guard(C.interrupt_retest_under_lock, R, prog, P)
     R.guard(counters, R, prog)
     R.guard(runq_discipline, R, prog)
     R.guard(death_and_join, R, prog)
